@@ -3,8 +3,7 @@
     negative length, map-less table lookup) has the explicit outcome [Panic]; the theorems say
     that no exported operation has that outcome, for every argument value.  Hangs are excluded
     by construction (total functions) together with the work bounds of C04.
-    Excluded exactly as the property excludes them: MustRawSuite / MustHexPadLeft, nil or
-    user-defined Suite values, LeftPadHex widths outside 0..2^20, a replaced TimeCounterFunc.
+    Excluded exactly as the property excludes them: MustRawSuite / MustHexPadLeft, user-defined Suite values (typed nil pointers included), LeftPadHex widths above 2^20, a replaced TimeCounterFunc.
     Operations whose model has no [outcome] type at all (To8ByteBigEndian, DigitsFromStr,
     AlgorithmFromStr, Digits.Int, Algorithm.String, ListSuites, IsKnownSuite, SuiteConfigFromRaws,
     Config/String of suites) are total Gallina functions with no partial primitive inside. *)
@@ -42,7 +41,7 @@ Print Assumptions C10_random_secret.
 
 Theorem C10_helpers : forall s c q p se t n,
   parse_decimal_be8 s <> Panic /\ parse_hex_timestamp s <> Panic /\ parse_decimal_challenge s <> Panic /\
-  hex_input_to_ocra c q p se t <> Panic /\ ((0 <= n)%Z -> left_pad_hex s n <> Panic).
+  hex_input_to_ocra c q p se t <> Panic /\ left_pad_hex s n <> Panic.
 Proof.
   intros. repeat split; [apply parse_decimal_be8_total|apply parse_hex_timestamp_total|apply parse_decimal_challenge_total|
                          apply hex_input_to_ocra_total|apply left_pad_hex_total].
